@@ -7,5 +7,5 @@ exec flock build/.build.lock sh -c '
   python3 translate/gen.py "${VERIF_REPO:-/repo}" coq/Gen build/gen_status.json || exit 2
   cd coq
   if [ ! -f Makefile ] || [ _CoqProject -nt Makefile ]; then coq_makefile -f _CoqProject -o Makefile || exit 2; fi
-  timeout 1700 make -k -j8 "$@" 2>&1 | tail -60
+  timeout 1700 make -k -j8 COQC="timeout 600 coqc" "$@" 2>&1 | tail -60
 '
